@@ -216,7 +216,13 @@ def run_mixed(env, eng, res, rnd):
         # parses 01 09 08 07 06 as a=[9, 8, 7], the property gives a=[9] (with the #define after the structure it does).
         for _ in range(60):
             plan = t2_arrays.mixed_plan(rnd, early=True)
-            L = t2_arrays.MixedView(plan)
+            try:
+                L = t2_arrays.MixedView(plan)
+            except Exception as e:  # noqa: BLE001
+                # an early constant makes the count a definition-time constant; a negative one is rejected when the structure is
+                # defined (a negative array size is no C either): outside the property's domain
+                res.feat("mixdim-early-constant:definition-rejected:" + type(e).__name__)
+                continue
             cfg = refimpl.Cfg("<", False, "uint64", L.consts)
             check_case(eng, res, L, "eof" if "eof" in plan["forms"] else "mixed", plan["en"], t2_arrays.mixed_input(rnd, plan, cfg), cfg,
                        eng.sigs(L) + ["F45"], label="mixdim-case:early-constant")
